@@ -230,6 +230,7 @@ fn main() {
                 "C05" => run_fsx("C05", tier, "exploration"),
                 "C06" => run_c06(tier),
                 "C07" => run_fsx("C07", tier, "exploration"),
+                "C08" => run_fsx("C08", tier, "exploration"),
                 "C16" => run_fsx("C16", tier, "exploration"),
                 "C17" => run_c17(tier),
                 "C18" => pure::run_c18(tier, env_seed()),
